@@ -174,6 +174,9 @@ func (o *Obs) answer() string {
 }
 
 func firstLine(s string) string {
+	if i := strings.Index(s, "goroutine "); i >= 0 { // a recovered panic carries a stack: not deterministic text
+		s = s[:i]
+	}
 	s = strings.TrimSpace(s)
 	s = strings.ReplaceAll(s, "\n", " / ")
 	if len(s) > 300 {
